@@ -34,7 +34,8 @@ PadsOk(r) ==
 \* C09: records without the bank bytes (large simulated events) are judged for totality only:
 \* the build returned Ok or Err, every later stage returned, the vertex (if any) is finite
 Judge(r) ==
-  IF r.verdict \notin {"ok", "err"} THEN "crash"
+  IF "fam" \in DOMAIN r /\ r.fam = "cfgcheck" THEN (IF MapsInjective THEN "fine" ELSE "map-not-injective")
+  ELSE IF r.verdict \notin {"ok", "err"} THEN "crash"
   ELSE IF "vfinite" \in DOMAIN r /\ r.vfinite # 1 THEN "nonfinite-vertex"
   ELSE IF "banks" \notin DOMAIN r THEN "fine"
   ELSE IF Unspecified(r.run, r.banks) THEN "fine"
